@@ -556,6 +556,33 @@ func writeProfileCols(b *strings.Builder, root string, files []string, parsed ma
 		}
 	}
 	b.WriteString("Definition gen_pprof_parse_guard : list string := " + strList(guard) + ".\n")
+	// the multipart form of /ingest: the form field read, the bound of the Decompressor, the boundary pattern
+	field, dlimit, pattern := "", "", ""
+	if gp := fileOf(root, files, parsed, "utils/unmarshal/golangPprof.go"); gp != nil {
+		ast.Inspect(gp, func(n ast.Node) bool {
+			switch x := n.(type) {
+			case *ast.IndexExpr:
+				if nospace(exprString(x.X)) == "form.File" {
+					field = strArg(x.Index)
+				}
+			case *ast.CallExpr:
+				switch calleeName(x.Fun) {
+				case "NewDecompressor":
+					if len(x.Args) == 1 {
+						dlimit = exprString(x.Args[0])
+					}
+				case "MustCompile":
+					if len(x.Args) == 1 {
+						if bl, ok := x.Args[0].(*ast.BasicLit); ok && strings.Contains(bl.Value, "^--") {
+							pattern = unquote(bl.Value)
+						}
+					}
+				}
+			}
+			return true
+		})
+	}
+	b.WriteString("Definition gen_mform_source : list string := " + strList([]string{field, dlimit, pattern}) + ".\n")
 	b.WriteString("Definition gen_profile_cols : list (string * kop) := [" + strings.Join(cols, "; ") + "].\n")
 	fmt.Fprintf(b, "Definition gen_profile_cols_unknown : Z := %d.\n", bad)
 }
